@@ -30,7 +30,7 @@ def kind_of_exc(e):
     if isinstance(e, graphlib.CycleError):
         return ["cycle"]
     if isinstance(e, KeyError):
-        return ["keyerror"]
+        return ["keyerror"] if e.args and e.args[0] == () else ["raised"]
     msg = str(e)
     if isinstance(e, TypeError):
         if msg.startswith("No method in"):
@@ -39,7 +39,11 @@ def kind_of_exc(e):
             return ["ambiguous"]
         if "is declared in" in msg or "registered methods define `self`" in msg or "already a method" in msg:
             return ["config"]
-        return ["bind"]
+        if any(p in msg for p in ("missing", "takes ", "unexpected keyword", "multiple values", "positional-only")):
+            return ["bind"]
+        return ["raised"]
+    if isinstance(e, (AttributeError, IndexError, ValueError)):
+        return ["raised"]
     if "is locked for modifications" in msg:
         return ["locked"]
     return ["exc", type(e).__name__, msg[:200]]
@@ -48,8 +52,9 @@ def kind_of_exc(e):
 class FnWorld:
     """realises the argument pool and the definitions of one function-level scenario"""
 
-    def __init__(self, w, sc):
+    def __init__(self, w, sc, ew=None):
         self.w = w
+        self.ew = ew
         self.sc = sc
         self.log = []
         self.depth = [0]
@@ -75,6 +80,10 @@ class FnWorld:
             return v
         if k == "type":
             return self.w.ty(a["t"])
+        if k == "val":
+            from corr_e import POOL
+
+            return POOL[a["pool"]]
         raise ValueError(a)
 
     def vid(self, obj):
@@ -95,7 +104,7 @@ class FnWorld:
             nm = f"n{p['name']}"
             names.append((nm, p))
             tname = f"T_{mid}_{p['name']}"
-            glb[tname] = self.w.ty(p["ty"])
+            glb[tname] = (self.ew or self.w).ty(p["ty"])
             dflt = ""
             if not p["req"]:
                 dname = f"D_{mid}_{p['name']}"
@@ -146,7 +155,7 @@ class FnWorld:
 
         sc = self.sc
         tmod.set = RankedSet
-        tyobjs = [self.w.ty(d) for d in sc["tyrank_desc"]]
+        tyobjs = [(self.ew or self.w).ty(d) for d in sc["tyrank_desc"]]
         tyrank = {}
         for i, t in enumerate(tyobjs):
             tyrank.setdefault(t, i)
